@@ -56,6 +56,41 @@ class Inv(Lin):
         return f'|A*X-I| = {r:.3g} for a matrix with cond {np.linalg.cond(A):.3g}' if r > s.tol() * 100 else None
 
 
+class InvBatch(Lin):
+    """inverse over the trailing two axes of a higher-order tensor"""
+    def __init__(s, T, lead, n):
+        nb = prod(lead); a = Buf('a', T, nb * n * n); x = Buf('x', T, nb * n * n, 'out')
+        tt = f'Tensor<{T},{dims(*lead)},{n},{n}>'
+        k = f'{tt} A(a); {tt} X = inverse(A); ' + copy_out('X', 'x', nb * n * n)
+        Lin.__init__(s, f'invbatch_{SHORT[T]}_{"x".join(map(str, lead))}_{n}', T, [a, x], k, f'batched inverse {tt}', div='frac', nameall=False)
+        s.n = n; s.nb = nb
+
+    def path_obligations(s, mod, kp, stats):
+        if kp.status != 'ok': return [Obl('status', z3.BoolVal(False), kp.pc, note='path ended with ' + kp.status)]
+        n, nb = s.n, s.nb; dom = kp.dom; w = s.w; rd = Reader(dom); xa = s.args[1]; tri = []
+        for b in range(nb):
+            A = FM(dom, [[FV(w, r=z3.Real(f'a{b * n * n + i * n + j}')) for j in range(n)] for i in range(n)])
+            rows = []
+            for i in range(n):
+                row = []
+                for j in range(n):
+                    v = rd.elem(kp.bufs['x'], xa, b * n * n + i * n + j)
+                    if isinstance(v, Undef): return [Obl(f'x[{b},{i},{j}]', z3.BoolVal(False), kp.pc, note='result element unwritten', kind='unwritten')]
+                    row.append(rd.as_float(v, w))
+                rows.append(row)
+            AX = matmul_fm(dom, A, FM(dom, rows), w)
+            tri += [(f'AX[{b}][{i},{j}]', AX[i, j], cst(dom, w, 1 if i == j else 0)) for i in range(n) for j in range(n)]
+        return s.eqs(kp, tri)
+
+    def native_check(s, inp, rk, rr):
+        m = s.nat_mats(inp, rk); n = s.n
+        for b in range(s.nb):
+            A = m['a'][b * n * n:(b + 1) * n * n].reshape(n, n); X = m['x'][b * n * n:(b + 1) * n * n].reshape(n, n)
+            if not np.all(np.isfinite(A)) or np.linalg.cond(A) > 1e4: continue
+            if not np.all(np.isfinite(X)) or np.abs(A @ X - np.eye(n)).max() > s.tol() * 100: return f'matrix {b} of the batch: |A*X-I| = {np.abs(A @ X - np.eye(n)).max():.3g}'
+        return None
+
+
 def cases(tier, cfg, seed):
     out = []
     TS = ['double', 'float'] if tier != 'quick' else ['double', 'float']
@@ -70,6 +105,8 @@ def cases(tier, cfg, seed):
             for st in ('SimpleLU', 'BlockLU'):
                 if T == 'float' and tier == 'quick': continue
                 out.append(Inv(T, n, st))
+        out.append(InvBatch(T, (3,), 2)); out.append(InvBatch(T, (2, 2), 2))
+        if tier != 'quick': out.append(InvBatch(T, (2,), 3)); out.append(InvBatch(T, (2, 1, 2), 2))
         if T == 'double':
             for n in ((5,) if tier == 'quick' else (5, 6, 8, 9)): out.append(Inv(T, n, 'SimpleInv', 'default'))
             for n in ((2, 3, 4, 5) if tier == 'quick' else (2, 3, 4, 5, 6, 8, 9, 12, 16)):
